@@ -1605,6 +1605,372 @@ Proof.
   - rewrite Hout'. simpl. congruence.
 Qed.
 
+(* ---- calls of the program's functions ------------------------------------------------------------ *)
+
+Local Notation compile_args := (Compile3.compile_args FT).
+
+Lemma in_F_call : forall sc f args, in_F lv sc (ECall (EVar f) args) =
+  Nat.leb 3 lv &&
+  match fsig_lookup f FS with Some n => Nat.eqb n (length args) | None => false end &&
+  args_F FS lv sc args.
+Proof.
+  intros. cbn [Compile3.in_F]. f_equal. induction args as [|a t IH]; [reflexivity|].
+  cbn [args_F]. rewrite <- IH. reflexivity.
+Qed.
+
+Lemma compile_args_cons : forall ce L a t, compile_args ce L (a :: t) =
+  compile_args ce L t ++ compile_expr (L + Z.of_nat (length t)) ce a.
+Proof. reflexivity. Qed.
+
+Lemma Forall2_ext_m : forall m m' (cs astk : list nat), ext m m' ->
+  Forall2 (fun c a => nth_error m c = Some (MA a)) cs astk ->
+  Forall2 (fun c a => nth_error m' c = Some (MA a)) cs astk.
+Proof. intros m m' cs astk He H. induction H; constructor; auto. eapply ext_nth; eauto. Qed.
+
+(* the argument list, last argument first; the images end up on the stack in source order *)
+Definition args_concl (prog : list rinstr) (s : vstate) (pc : nat) (code : list rinstr) (n : nat)
+  (m : morph) (ocs : option (list nat)) (r : res) (st1 : state) : Prop :=
+  match ocs with
+  | Some cs =>
+    exists s' m' astk, star prog s s' /\ v_ip s' = (pc + length code)%nat /\
+      v_stk s' = astk ++ v_stk s /\ length astk = n /\
+      Forall2 (fun c a => nth_error m' c = Some (MA a)) cs astk /\
+      MS m' st1 (v_heap s') /\ ext m m' /\ v_out s' = out st1 /\ v_fr s' = v_fr s
+  | None =>
+    match r with
+    | RExc ex => ex = ExDivision /\ raises prog s pc (pc + length code) st1
+    | _ => True
+    end
+  end.
+
+Lemma args_spec_of : forall k, expr_spec k ->
+  forall args env st ocs r st1, eval_args genv k env args st = ((ocs, r), st1) ->
+  forall sc, args_F FS lv sc args = true ->
+  forall prog pc L ce s m,
+    code_at prog pc (compile_args ce L args) -> v_ip s = pc ->
+    MS m st (v_heap s) -> v_out s = out st -> env_match m env ce sc L (v_stk s) ->
+    args_concl prog s pc (compile_args ce L args) (length args) m ocs r st1.
+Proof.
+  intros k IH. induction args as [|a t IHt]; intros env st ocs r st1 He sc HF prog pc L ce s m Hc Hip HMS Hout Hem.
+  - unfold eval_args in He. rewrite eval_args_f_nil in He. inv He. simpl.
+    exists s, m, []. simpl. rewrite Nat.add_0_r.
+    split; [apply star_refl|]. repeat (split; auto). apply ext_refl.
+  - unfold eval_args in He. rewrite eval_args_f_cons in He. fold (eval_args genv k env) in He.
+    cbn [args_F] in HF. apply andb_true_iff in HF; destruct HF as [Fa Ft].
+    rewrite compile_args_cons in *.
+    set (ct := compile_args ce L t) in *. set (ca := compile_expr (L + Z.of_nat (length t)) ce a) in *.
+    destruct (eval_args genv k env t st) as [[ocs1 r1] st2] eqn:Et.
+    pose proof (IHt env st ocs1 r1 st2 Et sc Ft prog pc L ce s m (code_at_app_l _ _ _ _ Hc) Hip HMS Hout Hem) as Ht.
+    fold ct in Ht.
+    destruct ocs1 as [cs|].
+    + destruct Ht as (s1 & m1 & astk & Hst1 & Hip1 & Hstk1 & Hlen1 & HF1 & HMS1 & Hext1 & Hout1 & Hfr1).
+      pose proof (env_match_pushn _ _ _ _ _ _ astk (env_match_ext _ _ _ _ _ _ _ Hem Hext1)) as Hem1.
+      rewrite Hlen1, <- Hstk1 in Hem1.
+      destruct (eval genv k env st2 a) as [ra st3] eqn:Ea.
+      pose proof (IH a _ _ _ _ Ea sc Fa prog (pc + length ct)%nat (L + Z.of_nat (length t)) ce s1 m1
+                    (code_at_app_r _ _ _ _ Hc) Hip1 HMS1 Hout1 Hem1) as Ha. fold ca in Ha.
+      destruct ra as [c|ex| |]; inv He; simpl in Ha |- *; auto.
+      * destruct Ha as (s2 & m2 & a2 & Hst2 & Hip2 & Hstk2 & Hm2 & HMS2 & Hext2 & Hout2 & Hfr2).
+        exists s2, m2, (a2 :: astk). split; [eapply star_trans; eauto|].
+        split; [rewrite Hip2, app_length; lia|]. split; [rewrite Hstk2, Hstk1; reflexivity|].
+        split; [simpl; lia|].
+        split; [constructor; [exact Hm2 | eapply Forall2_ext_m; eauto]|].
+        split; [exact HMS2|]. split; [eapply ext_trans; eauto|]. split; [exact Hout2 | congruence].
+      * destruct Ha as [-> Hr]. split; [reflexivity|].
+        eapply raises_star; [exact Hst1 | exact Hfr1 | exists astk; exact Hstk1 |].
+        eapply raises_weaken; [exact Hr | lia | rewrite app_length; lia].
+    + inv He. simpl in Ht |- *. destruct r as [c|ex| |]; auto.
+      destruct Ht as [-> Hr]. split; [reflexivity|].
+      eapply raises_weaken; [exact Hr | lia | rewrite app_length; lia].
+Qed.
+
+Lemma eval_args_none_not_ok : forall k env args st r st1 c,
+  eval_args genv k env args st = ((None, r), st1) -> r <> ROk c.
+Proof.
+  intros k env. induction args as [|a t IH]; intros st r st1 c He.
+  - unfold eval_args in He. rewrite eval_args_f_nil in He. discriminate.
+  - unfold eval_args in He. rewrite eval_args_f_cons in He. fold (eval_args genv k env) in He.
+    destruct (eval_args genv k env t st) as [[o1 r1] st2] eqn:Et.
+    destruct o1 as [cs|].
+    + destruct (eval genv k env st2 a) as [ra st3]. destruct ra; inv He; discriminate.
+    + inv He. eapply IH; eauto.
+Qed.
+
+(* the function a name denotes *)
+Lemma fsig_find : forall f (l : list fdef) n,
+  fsig_lookup f (map (fun fd => (fd_name fd, length (fd_params fd))) l) = Some n ->
+  exists kidx fd, nth_error l kidx = Some fd /\ find_func f l = Some fd /\
+    length (fd_params fd) = n /\
+    forall i, fpos f (map fd_name l) i = Some (i + Z.of_nat kidx).
+Proof.
+  induction l as [|g t IH]; intros n H; [discriminate|]. simpl in H |- *.
+  destruct (N.eqb f (fd_name g)) eqn:E.
+  - inv H. exists 0%nat, g. repeat split; auto. intros i. f_equal. lia.
+  - destruct (IH n H) as (kidx & fd & H1 & H2 & H3 & H4).
+    exists (S kidx), fd. repeat split; auto. intros i. rewrite H4. f_equal. lia.
+Qed.
+
+Lemma callee_of : forall m env ce sc L stk f n, env_match m env ce sc L stk ->
+  fsig_lookup f FS = Some n ->
+  exists kidx fd cf, nth_error (g_funcs G) kidx = Some fd /\ length (fd_params fd) = n /\
+    lookup_var genv f env = Some cf /\ nth_error m cf = Some (MF fd) /\
+    Compile3.fidx FT f = Z.of_nat (nstd + kidx).
+Proof.
+  intros m env ce sc L stk f n (_ & Hn & Hf) Hs.
+  destruct (fsig_find f (g_funcs G) n Hs) as (kidx & fd & H1 & H2 & H3 & H4).
+  destruct (Hf f fd H2) as (cf & Hg & Hm).
+  exists kidx, fd, cf. repeat split; auto.
+  - unfold lookup_var. destruct (lookup f env) as [c|] eqn:El; [|exact Hg].
+    pose proof (Hn f c El) as Hx. unfold is_fname in Hx. fold FS in Hx. rewrite Hs in Hx. discriminate.
+  - unfold Compile3.fidx. unfold FT. rewrite H4. lia.
+Qed.
+
+(* one activation of a program function, from its FUNC_DEF (arguments on the stack, the caller
+   suspended in the first frame) to the state after its RET — the result on the caller's stack, the
+   caller's registers restored — or after its RETHROW: the exception re-raised at the caller's CALL *)
+Definition genv_ok (m : morph) : Prop :=
+  forall f fd, find_func f (g_funcs G) = Some fd ->
+    exists cf, lookup f genv = Some cf /\ nth_error m cf = Some (MF fd).
+
+Definition body_spec (k : nat) : Prop :=
+  forall kidx fd, nth_error (g_funcs G) kidx = Some fd ->
+  forall cs penv st r st', bind_params (fd_params fd) cs = Some penv ->
+    eval_items genv k penv st (fd_body fd) None = (r, st') ->
+  forall prog astk h o m e0 F fs, prog_ok prog ->
+    MS m st h -> o = out st ->
+    Forall2 (fun c a => nth_error m c = Some (MA a)) cs astk -> genv_ok m ->
+    let s0 := mk (faddr (nstd + kidx)) astk h o {| r_fp := 0; r_exc := e0; r_frames := F :: fs |} in
+    match r with
+    | ROk c =>
+      exists h' o' m' a,
+        star prog s0 (mk (f_ret F) (a :: f_below F) h' o' {| r_fp := f_fp F; r_exc := e0; r_frames := fs |}) /\
+        nth_error m' c = Some (MA a) /\ MS m' st' h' /\ ext m m' /\ o' = out st'
+    | RExc ex =>
+      ex = ExDivision /\
+      exists h' t,
+        star prog s0 (mk (hsearch (x_tab X) (Nat.pred (f_ret F)) 0) (t :: f_below F) h' (out st')
+                         {| r_fp := f_fp F; r_exc := Some ExDivision; r_frames := fs |})
+    | _ => True
+    end.
+
+Hypothesis funcs_ok : forall fd, In fd (g_funcs G) -> Compile3.func_in_F FS lv fd = true.
+
+Lemma case_ECall : forall fr k f args, expr_spec k -> body_spec k ->
+  expr_case_at fr (S k) (ECall (EVar f) args).
+Proof.
+  intros fr k f args IH IHb env st r st' He sc HF prog L ce ip stk h o m Hc HMS Hout Hem.
+  rewrite in_F_call in HF.
+  apply andb_true_iff in HF; destruct HF as [HF Fargs].
+  apply andb_true_iff in HF; destruct HF as [_ Hsig].
+  destruct (fsig_lookup f FS) as [n|] eqn:Hs; [|discriminate Hsig]. apply Nat.eqb_eq in Hsig.
+  destruct (callee_of _ _ _ _ _ _ f n Hem Hs) as (kidx & fd & cf & Hk & Hnp & Hlv & Hmcf & Hfi).
+  rewrite eval_ECall in He.
+  change (compile_expr L ce (ECall (EVar f) args))
+    with (call_code (Compile3.fidx FT f) (compile_args ce (L + num_frame_ptrs) args)) in *.
+  rewrite Hfi in *.
+  set (ca := compile_args ce (L + num_frame_ptrs) args) in *.
+  rewrite call_code_length. pose proof Hc as (_ & Hpo & Hin). unfold call_code in Hc.
+  pose proof (code_at_head _ _ _ _ Hc) as HLN.
+  pose proof (code_at_tail _ _ _ _ Hc) as H1.
+  pose proof (code_at_head _ _ _ _ H1) as HMK.
+  pose proof (code_at_tail _ _ _ _ H1) as H2.
+  pose proof (code_at_app_l _ _ _ _ H2) as Hca.
+  pose proof (code_at_app_r _ _ _ _ H2) as H3.
+  set (q := (S (S ip) + length ca)%nat) in *.
+  pose proof (code_at_head _ _ _ _ H3) as HGV.
+  pose proof (code_at_head _ _ _ _ (code_at_tail _ _ _ _ H3)) as HFA.
+  pose proof (code_at_head _ _ _ _ (code_at_tail _ _ _ _ (code_at_tail _ _ _ _ H3))) as HCL.
+  pose proof (code_at_head _ _ _ _ (code_at_tail _ _ _ _ (code_at_tail _ _ _ _ (code_at_tail _ _ _ _ H3)))) as HLB.
+  set (retL := S (S (S q))) in *.
+  set (hdr := [retL; r_fp fr; 0; 0; 0]%nat).
+  set (fr' := set_fp fr (length stk + 5)).
+  assert (Hmk : star prog (mk ip stk h o fr) (mk (S (S ip)) (hdr ++ stk) h o fr')).
+  { eapply star_step; [apply step_line; exact HLN|]. apply star_one.
+    eapply step_mark; [exact HMK | subst retL q; unfold len; lia]. }
+  assert (Hin' : in_fun (S (S ip)) (q - S (S ip))).
+  { destruct Hin as (kf & fdf & Hkf & Hrg). exists kf, fdf. split; [exact Hkf|].
+    unfold call_code in Hrg. cbn [length] in Hrg. rewrite app_length in Hrg. cbn [length] in Hrg.
+    subst q. fold ca in Hrg. lia. }
+  destruct (eval_args genv k env args st) as [[ocs ra] st1] eqn:Eargs.
+  pose proof (env_match_pushn _ _ _ _ _ _ hdr Hem) as Hem5.
+  change (Z.of_nat (length hdr)) with num_frame_ptrs in Hem5.
+  pose proof (args_spec_of k IH args env st ocs ra st1 Eargs sc Fargs prog (S (S ip)) (L + num_frame_ptrs) ce
+                (mk (S (S ip)) (hdr ++ stk) h o fr') m Hca eq_refl HMS Hout Hem5) as Ha.
+  fold ca in Ha. fold q in Ha. unfold args_concl in Ha.
+  destruct ocs as [cs|].
+  2:{ inv He. simpl in Ha. destruct r as [c|ex| |]; simpl; auto.
+      { exfalso. eapply eval_args_none_not_ok; eauto. }
+      destruct Ha as [-> Hr]. split; [reflexivity|].
+      destruct (unwind_pending fr prog (mk (S (S ip)) (hdr ++ stk) h (out st) fr') [] retL stk
+                  (S (S ip)) q st' Hpo Hin' eq_refl eq_refl Hr)
+        as (s'' & t & Hs'' & Hip'' & Hfr'' & Hstk'' & Hout'').
+      exists s'', (Nat.pred retL). split; [eapply star_trans; eauto|].
+      split; [subst retL q; simpl; lia|]. split; [exact Hip''|]. split; [exact Hfr''|].
+      split; [exists t, []; exact Hstk'' | exact Hout'']. }
+  destruct Ha as (s1 & m1 & astk & Hst1 & Hip1 & Hstk1 & Hlen1 & HF1 & HMS1 & Hext1 & Hout1 & Hfr1).
+  destruct s1 as [ip1 stk1 h1 o1 fr1]; simpl in Hip1, Hstk1, HMS1, Hout1, Hfr1; subst ip1 stk1 fr1.
+  (* the callee expression: a name of a top-level function *)
+  destruct k as [|k']; [rewrite eval_O in He; inv He; exact I|].
+  rewrite eval_EVar, Hlv in He.
+  pose proof (ext_nth _ _ _ _ Hext1 Hmcf) as Hmcf1.
+  unfold apply_fun in He. unfold get_cell in He. rewrite (ms_fun _ _ _ HMS1 cf fd Hmcf1) in He.
+  destruct (bind_params (fd_params fd) cs) as [penv|] eqn:Hb; [|inv He; exact I].
+  unfold call_body in He. rewrite app_nil_r in He.
+  assert (Hfd : In fd (g_funcs G)) by (eapply nth_error_In; eauto).
+  pose proof (funcs_ok fd Hfd) as Hfok. unfold Compile3.func_in_F in Hfok.
+  apply andb_true_iff in Hfok; destruct Hfok as [_ Hcat].
+  assert (Hc12 : fd_catches fd = [] /\ fd_catch_all fd = None).
+  { destruct (fd_catches fd); [destruct (fd_catch_all fd); [discriminate | auto] | discriminate]. }
+  destruct Hc12 as [C1 C2]. rewrite C1, C2 in He.
+  destruct (eval_items genv (S k') penv st1 (fd_body fd) None) as [rb st3] eqn:Eb.
+  assert (Hg1 : genv_ok m1).
+  { intros g gd Hgd. destruct Hem as (_ & _ & Hf3). destruct (Hf3 g gd Hgd) as (cg & Hl & Hm).
+    exists cg. split; [exact Hl | eapply ext_nth; eauto]. }
+  set (h1' := (h1 ++ [0]) ++ [Z.of_nat (faddr (nstd + kidx))]).
+  assert (HMS1' : MS m1 st1 h1') by (unfold h1'; apply MS_heap_app, MS_heap_app; exact HMS1).
+  pose proof (IHb kidx fd Hk cs penv st1 rb st3 Hb Eb prog astk h1' o1 m1 (r_exc fr)
+                {| f_ret := retL; f_fp := r_fp fr; f_below := stk |} (r_frames fr) Hpo HMS1' Hout1 HF1 Hg1) as Hbody.
+  cbn [f_ret f_fp f_below] in Hbody.
+  assert (Henter : star prog (mk ip stk h o fr)
+                     (mk (faddr (nstd + kidx)) astk h1' o1
+                         {| r_fp := 0; r_exc := r_exc fr;
+                            r_frames := {| f_ret := retL; f_fp := r_fp fr; f_below := stk |} :: r_frames fr |})).
+  { eapply star_trans; [exact Hmk|]. eapply star_trans; [exact Hst1|].
+    apply (enter_call fr prog q (nstd + kidx) astk stk h1 o1 retL HGV HFA HCL). }
+  destruct rb as [cb|exb| |].
+  - inv He. simpl.
+    destruct Hbody as (h' & o' & m' & a & Hrun & Hm' & HMS' & Hext' & Ho').
+    rewrite fregs_eta in Hrun.
+    apply (post_ok_intro _ _ _ _ _ _ (mk (S retL) (a :: stk) h' o' fr) m' a); simpl; auto.
+    + eapply star_trans; [exact Henter|]. eapply star_snoc; [exact Hrun|]. apply step_label. exact HLB.
+    + subst retL q. lia.
+    + eapply ext_trans; eauto.
+  - rewrite handlers_nil in He. inv He. simpl.
+    destruct Hbody as (-> & h' & t & Hrun). split; [reflexivity|].
+    exists (mk (hsearch (x_tab X) (Nat.pred retL) 0) (t :: stk) h' (out st')
+               {| r_fp := r_fp fr; r_exc := Some ExDivision; r_frames := r_frames fr |}), (Nat.pred retL).
+    split; [eapply star_trans; [exact Henter | exact Hrun]|].
+    split; [subst retL q; simpl; lia|]. split; [reflexivity|]. split; [reflexivity|].
+    split; [exists t, []; reflexivity | reflexivity].
+  - inv He. exact I.
+  - inv He. exact I.
+Qed.
+
+(* ---- a function body (functions in which front/tailrec.c marks nothing) --------------------------- *)
+
+Lemma param_env_names : forall ps cs penv stk m pre,
+  bind_params ps cs = Some penv ->
+  Forall2 (fun c a => nth_error m c = Some (MA a)) cs stk ->
+  forall x, mem_id x (param_names ps) = true ->
+    exists i c a, clookup x (param_env ps (- Z.of_nat (length pre))) = Some i /\ i <= 0 /\
+      lookup x penv = Some c /\ nth_error m c = Some (MA a) /\
+      nth_error (pre ++ stk) (Z.to_nat (0 - i)) = Some a.
+Proof.
+  induction ps as [|[[x v] t] ps IH]; intros cs penv stk m pre Hb HF y Hy.
+  - discriminate Hy.
+  - destruct cs as [|c cs]; [discriminate Hb|]. simpl in Hb.
+    destruct (bind_params ps cs) as [e|] eqn:Eb; [|discriminate Hb]. inv Hb.
+    inversion HF as [|c0 a cs0 stk' Hca HF']; subst.
+    simpl in Hy |- *. destruct (N.eqb y x) eqn:Exy.
+    + exists (- Z.of_nat (length pre)), c, a. repeat split; auto; try lia.
+      match goal with |- nth_error _ ?k = _ => replace k with (length pre) by lia end.
+      rewrite nth_error_app2, Nat.sub_diag by lia. reflexivity.
+    + simpl in Hy.
+      specialize (IH cs e stk' m (pre ++ [a]) Eb HF' y Hy).
+      rewrite app_length in IH. simpl in IH.
+      replace (- Z.of_nat (length pre + 1)) with (- Z.of_nat (length pre) - 1) in IH by lia.
+      rewrite <- app_assoc in IH. exact IH.
+Qed.
+
+Lemma bind_params_lookup : forall ps cs penv x c, bind_params ps cs = Some penv ->
+  lookup x penv = Some c -> In x (param_names ps).
+Proof.
+  induction ps as [|[[y v] t] ps IH]; intros cs penv x c Hb Hl.
+  - destruct cs; inv Hb. discriminate Hl.
+  - destruct cs as [|c0 cs]; [discriminate Hb|]. simpl in Hb.
+    destruct (bind_params ps cs) as [e|] eqn:Eb; [|discriminate Hb]. inv Hb.
+    simpl in Hl |- *. destruct (N.eqb x y) eqn:E.
+    + left. symmetry. apply N.eqb_eq. exact E.
+    + right. eapply IH; eauto.
+Qed.
+
+Lemma param_env_match : forall fd cs penv astk m,
+  Compile3.func_in_F FS lv fd = true ->
+  bind_params (fd_params fd) cs = Some penv ->
+  Forall2 (fun c a => nth_error m c = Some (MA a)) cs astk -> genv_ok m ->
+  env_match m penv (param_env (fd_params fd) 0) (param_names (fd_params fd)) 0 astk.
+Proof.
+  intros fd cs penv astk m Hok Hb HF Hg. unfold Compile3.func_in_F in Hok.
+  apply andb_true_iff in Hok; destruct Hok as [Hok _].
+  apply andb_true_iff in Hok; destruct Hok as [_ Hpn].
+  split; [|split].
+  - intros x Hx. destruct (param_env_names _ _ _ _ m [] Hb HF x Hx) as (i & c & a & H1 & H2 & H3 & H4 & H5).
+    exists i, c, a. repeat split; auto.
+  - intros x c Hl. pose proof (bind_params_lookup _ _ _ _ _ Hb Hl) as Hin.
+    rewrite forallb_forall in Hpn. specialize (Hpn x Hin). apply negb_true_iff in Hpn. exact Hpn.
+  - exact Hg.
+Qed.
+
+(* for every function of the program, the tail-position compilation of the body is the plain one:
+   front/tailrec.c marks no call (no self call is in tail position) *)
+Hypothesis Hnotail : forall fd, In fd (g_funcs G) ->
+  compile_body FT fd = compile_expr 0 (param_env (fd_params fd) 0) (EBlock (fd_body fd)).
+
+Lemma body_of_items : forall k, items_spec k -> body_spec k.
+Proof.
+  intros k IHi kidx fd Hk cs penv st r st' Hb He prog astk h o m e0 F fs Hpo HMS Hout HF Hg s0.
+  assert (Hfd : In fd (g_funcs G)) by (eapply nth_error_In; eauto).
+  pose proof (funcs_ok fd Hfd) as Hfok.
+  pose proof (po_fun _ Hpo kidx fd Hk) as Hcode. unfold compile_func in Hcode.
+  rewrite (Hnotail fd Hfd) in Hcode.
+  set (fa := faddr (nstd + kidx)) in *.
+  set (frc := {| r_fp := 0; r_exc := e0; r_frames := F :: fs |}) in *.
+  set (body := compile_expr 0 (param_env (fd_params fd) 0) (EBlock (fd_body fd))) in *.
+  pose proof (CompileCorrect3Base.code_at_head _ _ _ _ Hcode) as HFD.
+  pose proof (CompileCorrect3Base.code_at_tail _ _ _ _ Hcode) as Hc1.
+  pose proof (CompileCorrect3Base.code_at_app_l _ _ _ _ Hc1) as Hbody.
+  pose proof (CompileCorrect3Base.code_at_app_r _ _ _ _ Hc1) as Hc2.
+  pose proof (CompileCorrect3Base.code_at_head _ _ _ _ Hc2) as HLN.
+  pose proof (CompileCorrect3Base.code_at_head _ _ _ _ (CompileCorrect3Base.code_at_tail _ _ _ _ Hc2)) as HRT.
+  pose proof (CompileCorrect3Base.code_at_head _ _ _ _
+               (CompileCorrect3Base.code_at_tail _ _ _ _ (CompileCorrect3Base.code_at_tail _ _ _ _ Hc2))) as HLB.
+  pose proof (CompileCorrect3Base.code_at_head _ _ _ _
+               (CompileCorrect3Base.code_at_tail _ _ _ _ (CompileCorrect3Base.code_at_tail _ _ _ _
+               (CompileCorrect3Base.code_at_tail _ _ _ _ Hc2)))) as HRW.
+  assert (Hlenf : length (compile_func FT fd) = (length body + 5)%nat).
+  { unfold compile_func. rewrite (Hnotail fd Hfd). fold body. cbn [length]. rewrite app_length. cbn [length]. lia. }
+  assert (Hpc : pcode_at prog (S fa) body).
+  { split; [exact Hbody|]. split; [exact Hpo|]. exists kidx, fd. split; [exact Hk|]. fold fa. rewrite Hlenf. lia. }
+  assert (He' : eval genv (S k) penv st (EBlock (fd_body fd)) = (r, st')) by (rewrite eval_EBlock; exact He).
+  assert (HFb : in_F lv (param_names (fd_params fd)) (EBlock (fd_body fd)) = true).
+  { unfold Compile3.func_in_F in Hfok. apply andb_true_iff in Hfok; destruct Hfok as [Hfok _].
+    apply andb_true_iff in Hfok; destruct Hfok as [Hfok _]. exact Hfok. }
+  pose proof (param_env_match fd cs penv astk m Hfok Hb HF Hg) as Hem.
+  assert (H0 : star prog s0 (mk (S fa) astk h o frc)).
+  { apply star_one. apply (step_func_def frc). exact HFD. }
+  pose proof (case_EBlock frc k (fd_body fd) IHi penv st r st' He' (param_names (fd_params fd)) HFb prog 0
+                (param_env (fd_params fd) 0) (S fa) astk h o m Hpc HMS Hout Hem) as Hx.
+  fold body in Hx.
+  destruct r as [c|ex| |]; auto.
+  - destruct Hx as (s1 & m1 & a & Hst1 & Hip1 & Hstk1 & Hm1 & HMS1 & Hext1 & Hout1 & Hfr1).
+    destruct s1 as [ip1 stk1 h1 o1 fr1]; simpl in Hip1, Hstk1, HMS1, Hout1, Hfr1; subst ip1 stk1 fr1.
+    exists h1, o1, m1, a. split; [|auto].
+    eapply star_trans; [exact H0|]. eapply star_trans; [exact Hst1|].
+    eapply star_step; [apply (step_line frc); exact HLN|].
+    apply star_one. apply step_ret_frame. exact HRT.
+  - destruct Hx as (-> & s1 & fip & Hst1 & Hrng & Hip1 & Hfr1 & (t & top & Hstk1) & Hout1).
+    split; [reflexivity|].
+    destruct s1 as [ip1 stk1 h1 o1 fr1]; simpl in Hip1, Hstk1, Hout1, Hfr1; subst stk1 o1 fr1.
+    rewrite (po_tab _ Hpo kidx fd fip Hk) in Hip1 by (fold fa; rewrite Hlenf; lia).
+    fold fa in Hip1. rewrite Hlenf in Hip1.
+    replace (fa + (length body + 5) - 2)%nat with (S (S (S fa + length body))) in Hip1 by lia. subst ip1.
+    exists h1, t.
+    eapply star_trans; [exact H0|]. eapply star_trans; [exact Hst1|].
+    eapply star_step; [apply (step_label (set_exc frc ExDivision)); exact HLB|].
+    apply star_one. unfold set_exc, frc. cbn [r_fp r_exc r_frames].
+    apply step_rethrow_frame. exact HRW.
+Qed.
+
 (* ---- from the statements at given registers to the general ones ------------------------------ *)
 
 Lemma expr_case_of_at : forall k e, (forall fr, expr_case_at fr k e) -> expr_case k e.
@@ -1635,10 +2001,7 @@ Proof.
   exact (H fr b c env st r st' He sc Fb Fc prog pc L ce stk h o m Hc HMS Hout Hem).
 Qed.
 
-(* ---- the induction ------------------------------------------------------------------------------
-   PARTIAL: calls of the program's functions (level 3) are not covered yet — see
-   Properties/Properties_C02b.v for the full statement and the missing pieces. *)
-Hypothesis Hlv3 : Nat.leb 3 lv = false.
+(* ---- the induction ------------------------------------------------------------------------------ *)
 
 Lemma expr_step : forall k, expr_spec k -> items_spec k -> while_spec (S k) -> dowhile_spec (S k) ->
   expr_spec (S k).
@@ -1655,8 +2018,8 @@ Proof.
     + apply case_EOr; assumption.
   - apply case_ECond; assumption.
   - apply case_EAssign; assumption.
-  - intros ? ? ? ? ? ? HF. destruct e; try (cbn [Compile3.in_F] in HF; discriminate HF).
-    cbn [Compile3.in_F] in HF. rewrite Hlv3 in HF. discriminate HF.
+  - destruct e; try (intros ? ? ? ? ? ? HF; cbn [Compile3.in_F] in HF; discriminate HF).
+    apply case_ECall; [assumption | apply body_of_items; assumption].
   - apply case_EBlock; assumption.
   - apply case_EWhile; assumption.
   - apply case_EDoWhile; assumption.
